@@ -5,8 +5,9 @@
 (* Match and PartialMatch answers.  An event is a behaviour of the         *)
 (* specification iff                                                       *)
 (*   L1  every selector resolves  => both answers are the classical ones   *)
-(*   L6  a top-level leaf over missing required data fails Match and       *)
-(*       passes PartialMatch; over missing optional data it passes         *)
+(*   L6  a top-level leaf (or a negation of one, or a quantifier whose own *)
+(*       selector does not resolve) over missing required data fails Match *)
+(*       and passes PartialMatch; over missing optional data it passes     *)
 (*   L4  Match => PartialMatch                                             *)
 (*   L2  the answers for the same statement with every and/or operand list *)
 (*       reversed (rmatch, rpartial, recorded in the same event) are equal *)
@@ -17,6 +18,28 @@
 EXTENDS Policy
 
 Trace == ndJsonDeserialize("trace.ndjson")
+
+\* the alphabet of recorded selectors: every ASCII letter and digit
+TraceLetters == (65..90) \cup (97..122)
+TraceDigits == 48..57
+
+\* every selector of a recorded statement is one the specification can read (an event whose statement the
+\* specification cannot interpret is not accepted: it would be judged vacuously)
+\* statements whose "required / optional data is missing" status is unambiguous: a leaf, a negation of such a
+\* statement, a quantifier whose own selector does not resolve on the datum
+RECURSIVE Unamb(_, _)
+Unamb(st, d) ==
+  CASE IsLeaf(st) -> TRUE
+    [] st.op = "not" -> Unamb(st.s, d)
+    [] st.op \in {"all", "any"} -> ~IsValue(SelRes(st.sel, d))
+    [] OTHER -> FALSE
+
+RECURSIVE SelsOK(_)
+SelsOK(st) ==
+  CASE IsLeaf(st) -> ParseSel(st.sel).ok
+    [] st.op = "not" -> SelsOK(st.s)
+    [] st.op \in {"and", "or"} -> \A i \in 1..Len(st.ss) : SelsOK(st.ss[i])
+    [] OTHER -> ParseSel(st.sel).ok /\ SelsOK(st.s)
 VARIABLES l, last
 tvars == <<l, last>>
 
@@ -25,11 +48,12 @@ TraceInit == l = 1 /\ last = [e4 |-> "T", shape |-> "T"]
 Accepts(e) ==
   LET r == Eval4(e.st, e.data) IN
   /\ ~e.panic
+  /\ SelsOK(e.st)
   /\ e.match => e.partial
   /\ e.rmatch = e.match /\ e.rpartial = e.partial      \* L2: same statement, every operand list reversed
   /\ (AllResolve(e.st, e.data) /\ r # "DC") => (e.match = Passes(r) /\ e.partial = PPasses(r))
-  /\ (IsLeaf(e.st) /\ r = "ND")  => (~e.match /\ e.partial)
-  /\ (IsLeaf(e.st) /\ r = "OND") => e.match
+  /\ (Unamb(e.st, e.data) /\ r = "ND")  => (~e.match /\ e.partial)
+  /\ (Unamb(e.st, e.data) /\ r = "OND") => e.match
 
 TraceMatch ==
   /\ Trace[l].ev = "Match"
